@@ -15,8 +15,8 @@ and not modelled.  This file proves, for EVERY graph:
   * frame lemmas — each provider‑driven operation touches only column nodes and edges incident to a column node, and no tag
     (`addWriteColumns_frame`, `replaceWildcard_frame`, `expandWildcard_frame`, `resolveOne_frame`, `resolveAll_frame`),
     hence leaves `holder.read / .write / .cte / .drop` and the rename edges alone (`tables_independent_of_provider_ops`);
-  * `tables_independent_of_provider_partial` — the statement‑level consequence for the statements whose walk ends in one of
-    these operations applied to a provider‑independent holder; what is missing for the full mutual walk is said there;
+  * `tables_independent_of_provider_partial` — the statement‑level consequence for every statement without a query and for
+    SELECT / CREATE TABLE AS / CREATE VIEW over a flat SELECT block; what is missing for the full mutual walk is said there;
   * `star_exact`, `unqualified_by_metadata`, `never_to_known_lacking`, `insert_positions_from_target_meta`,
     `explicit_list_wins` (for the REPAIRED create_insert.py, `Model/InsertCols.lean`), `unknown_tables_unchanged`;
   * `dev_D8` — the unrepaired extractor (`InsertCols.exWriteQueryUnrepaired`) ignores an explicit column list that is a strict
@@ -26,6 +26,7 @@ The model is tied to the code by `harness/c13.py`.
 -/
 import SqlLineage.Proofs.FrameLemmas
 import SqlLineage.Proofs.WriteColsLemmas
+import SqlLineage.Proofs.FlatLemmas
 import SqlLineage.Model.Stmt
 import SqlLineage.Model.InsertCols
 
@@ -615,6 +616,262 @@ theorem resolveAll_tables (prov prov' : Assemble.Prov) (g g1 g2 : LGraph)
   refine ⟨fun n t hn => (f1.tags n t hn).trans (f2.tags n t hn).symm, fun u v hu hv => ?_⟩
   exact ⟨(f1.edges u v hu hv).1.trans (f2.edges u v hu hv).1.symm, (f1.edges u v hu hv).2.trans (f2.edges u v hu hv).2.symm⟩
 
+/-! ### `tables_independent_of_provider`, statement level (partial) -/
+
+/-- two analysis results report the same tables: both fail alike, or both succeed with the same read and write sets
+    (as lists, in order) -/
+def TablesAgree (x y : Except Err LGraph) : Prop :=
+  match x, y with
+  | .ok a, .ok b => Assemble.stmtRead a = Assemble.stmtRead b ∧ Assemble.stmtWrite a = Assemble.stmtWrite b
+  | .error e, .error e' => e = e'
+  | _, _ => False
+
+theorem TablesAgree.refl (x : Except Err LGraph) : TablesAgree x x := by
+  cases x <;> simp [TablesAgree]
+
+/-- two holders framed by one common holder report the same tables -/
+private theorem agree_of_frames {g a b : LGraph} (fa : Frame g a) (fb : Frame g b) : TablesAgree (.ok a) (.ok b) :=
+  ⟨(stmtRead_eq_of_frame fa).trans (stmtRead_eq_of_frame fb).symm,
+   (stmtWrite_eq_of_frame fa).trans (stmtWrite_eq_of_frame fb).symm⟩
+
+/-- the fragment of `tables_independent_of_provider_partial`: every statement without a query; SELECT, CREATE TABLE AS and
+    CREATE VIEW over one flat SELECT block (`Flat.flatSelect`: base tables only, no subquery; see `Proofs/FlatLemmas.lean`) -/
+def frag13 : Ast.Stmt → Bool
+  | .query q _ => Flat.flatSelect q
+  | .ctas _ _ _ q _ => Flat.flatSelect q
+  | .createView _ _ _ q => Flat.flatSelect q
+  | .insert .. => false
+  | _ => true
+
+/-- the select extractor on a flat block, for two providers: same outcome up to a frame -/
+private theorem exQuery_flat_agree (env : Env) (p p' : ProvView) (ctx : Ctx) (q : Ast.Query) (hq : Flat.flatSelect q = true) :
+    (∃ e, exQuery { env with prov := p } ctx q = .error e ∧ exQuery { env with prov := p' } ctx q = .error e) ∨
+    (∃ c, exQuery { env with prov := p } ctx q = .ok (expandWildcard p c) ∧
+          exQuery { env with prov := p' } ctx q = .ok (expandWildcard p' c)) := by
+  cases q with
+  | setop _ _ => simp [Flat.flatSelect] at hq
+  | withq _ _ => simp [Flat.flatSelect] at hq
+  | select d its frm wh grp hav =>
+    rw [Flat.exQuery_flat _ ctx d its frm wh grp hav hq, Flat.exQuery_flat _ ctx d its frm wh grp hav hq,
+      Flat.finishBranches_eq, Flat.finishBranches_eq, Flat.cleanupOf_prov env p, Flat.cleanupOf_prov env p']
+    cases Flat.cleanupOf env (initHolder ctx) [(its, frm)] with
+    | error e => exact Or.inl ⟨e, rfl, rfl⟩
+    | ok c => exact Or.inr ⟨c, rfl, rfl⟩
+
+private theorem mem_insertByIdx (x y : Node × Nat) : ∀ acc, y ∈ insertByIdx x acc → y = x ∨ y ∈ acc
+  | [], h => by simpa [insertByIdx] using h
+  | z :: r, h => by
+    simp only [insertByIdx] at h
+    split at h
+    · simpa using h
+    · rcases List.mem_cons.mp h with h | h
+      · exact Or.inr (by simp [h])
+      · rcases mem_insertByIdx x y r h with h | h
+        · exact Or.inl h
+        · exact Or.inr (by simp [h])
+
+private theorem mem_sortByIdx (l : List (Node × Nat)) (y : Node × Nat) (h : y ∈ sortByIdx l) : y ∈ l := by
+  have gen : ∀ (l acc : List (Node × Nat)), y ∈ l.foldl (fun acc x => insertByIdx x acc) acc → y ∈ acc ∨ y ∈ l := by
+    intro l
+    induction l with
+    | nil => intro acc h; exact Or.inl h
+    | cons x r ih =>
+      intro acc h
+      rcases ih _ h with h | h
+      · rcases mem_insertByIdx x y acc h with h | h
+        · exact Or.inr (by simp [h])
+        · exact Or.inl h
+      · exact Or.inr (by simp [h])
+  rcases gen l [] h with h | h
+  · cases h
+  · exact h
+
+/-- when every edge of the holder ends in a column node, the write columns are column nodes -/
+private theorem writeColumns_isCol (g : LGraph) (hE : ∀ e ∈ g.edges, e.2.isCol = true) :
+    ∀ k ∈ writeColumns g, k.isCol = true := by
+  intro k hk
+  unfold writeColumns at hk
+  split at hk
+  · cases hk
+  · rename_i t _
+    obtain ⟨⟨k', i⟩, hm, rfl⟩ := List.mem_map.mp hk
+    have hm' := mem_sortByIdx _ _ hm
+    obtain ⟨c, hc, hci⟩ := List.mem_map.mp hm'
+    have hck : c = k' := congrArg Prod.fst hci
+    subst hck
+    have hout := (List.mem_filter.mp hc).1
+    exact hE (.ds t, c) ((mem_outEdges g _ _).mp hout)
+
+private theorem edgesToCols_addWriteColumns (g : LGraph) (cols : List Column) (hE : ∀ e ∈ g.edges, e.2.isCol = true) :
+    ∀ e ∈ (addWriteColumns g cols).edges, e.2.isCol = true := by
+  unfold addWriteColumns
+  cases (writeSet g).head? with
+  | none => exact hE
+  | some t =>
+    have gen : ∀ (tp : DS × String) (l : List (Column × Nat)) (G : LGraph), (∀ e ∈ G.edges, e.2.isCol = true) →
+        ∀ e ∈ (l.foldl (fun g ci => g.addEdge (.ds t) (ci.1.addParent tp).key .hasColumn (some ci.2) none
+          (some (.col (ci.1.addParent tp)))) G).edges, e.2.isCol = true := by
+      intro tp l
+      induction l with
+      | nil => intro G hG; exact hG
+      | cons ci r ih =>
+        intro G hG
+        simp only [List.foldl_cons]
+        apply ih
+        intro e he
+        rcases (mem_edges_addEdge _ _ _ _ _ _ _ _).mp he with h | h
+        · exact hG e h
+        · rw [h]; rfl
+    exact gen _ _ g hE
+
+/-- the target holder of an INSERT (provider's columns, then — repaired code — removal of the write columns and the
+    explicit list), written out so that it matches `InsertCols.targetHolder` and, after `patches/Stmt-D8.patch`,
+    `Walk.writeTargetHolder`: whatever the provider says, only column nodes and column edges are added to the bare target -/
+private theorem target_frame {α : Type} (g0 : LGraph) (hE : g0.edges = []) (b : Bool) (provCols : List Column)
+    (f : α → List Column) (cs : Option α) :
+    Frame g0 (match cs with
+      | some c => addWriteColumns ((writeColumns (if b then addWriteColumns g0 provCols else g0)).foldl
+          (fun g n => if g.hasNode n then g.removeNode n else g) (if b then addWriteColumns g0 provCols else g0)) (f c)
+      | none => (if b then addWriteColumns g0 provCols else g0)) := by
+  have f1 : Frame g0 (if b then addWriteColumns g0 provCols else g0) := by
+    split
+    · exact addWriteColumns_frame g0 provCols
+    · exact Frame.refl g0
+  have e1 : ∀ e ∈ (if b then addWriteColumns g0 provCols else g0).edges, e.2.isCol = true := by
+    split
+    · exact edgesToCols_addWriteColumns g0 provCols (by simp [hE])
+    · simp [hE]
+  cases cs with
+  | none => exact f1
+  | some c =>
+    refine Frame.trans (Frame.trans f1 ?_) (addWriteColumns_frame _ (f c))
+    apply Frame.foldl
+    intro n hn g
+    exact frame_ite_removeNode g n (writeColumns_isCol _ e1 n hn)
+
+private theorem base_edges' (t : DObj) : (addWriteO (Graph.empty : LGraph) t).edges = [] := by
+  simp [addWriteO, addWrite]
+
+/-- INSERT … VALUES: the provider only adds write columns to the bare target -/
+private theorem insertValues_agree (env : Env) (p : ProvView) (tgt : List String) (cols : Option (List String)) :
+    TablesAgree
+      ((fun (env : Env) =>
+        let t := mkTable env tgt none
+        let g := addWriteO Graph.empty t
+        let g := if env.prov.truthy then addWriteColumns g (provColumns env.prov t.d t.printed) else g
+        (Except.ok (match cols with | some cs => addWriteColumns g (cs.map listColumn) | none => g) : Except Err LGraph))
+        { env with prov := p })
+      ((fun (env : Env) =>
+        let t := mkTable env tgt none
+        let g := addWriteO Graph.empty t
+        let g := if env.prov.truthy then addWriteColumns g (provColumns env.prov t.d t.printed) else g
+        (Except.ok (match cols with | some cs => addWriteColumns g (cs.map listColumn) | none => g) : Except Err LGraph))
+        { env with prov := ProvView.none }) := by
+  have fr : ∀ q : ProvView, Frame (addWriteO Graph.empty (mkTable env tgt none))
+      (match cols with
+        | some cs => addWriteColumns (if q.truthy then addWriteColumns (addWriteO Graph.empty (mkTable env tgt none))
+            (provColumns q (mkTable env tgt none).d (mkTable env tgt none).printed) else addWriteO Graph.empty (mkTable env tgt none))
+            (cs.map listColumn)
+        | none => (if q.truthy then addWriteColumns (addWriteO Graph.empty (mkTable env tgt none))
+            (provColumns q (mkTable env tgt none).d (mkTable env tgt none).printed) else addWriteO Graph.empty (mkTable env tgt none))) := by
+    intro q
+    have f1 : Frame (addWriteO Graph.empty (mkTable env tgt none))
+        (if q.truthy then addWriteColumns (addWriteO Graph.empty (mkTable env tgt none))
+          (provColumns q (mkTable env tgt none).d (mkTable env tgt none).printed) else addWriteO Graph.empty (mkTable env tgt none)) := by
+      split
+      · exact addWriteColumns_frame _ _
+      · exact Frame.refl _
+    cases cols with
+    | none => exact f1
+    | some cs => exact Frame.trans f1 (addWriteColumns_frame _ _)
+  exact agree_of_frames (fr p) (fr ProvView.none)
+
+/-- CREATE TABLE AS / CREATE VIEW over a flat block: the target holder does not depend on the provider, the select
+    extractor's result does only up to a frame -/
+private theorem writeQuery_agree (env : Env) (p : ProvView) (tgt : List String) (cols : Option (List String)) (q : Ast.Query)
+    (hq : Flat.flatSelect q = true) :
+    TablesAgree (exWriteQuery { env with prov := p } false tgt cols q)
+      (exWriteQuery { env with prov := ProvView.none } false tgt cols q) := by
+  -- the holder handed to the select extractor (no provider involved: not an INSERT)
+  have hG : ∃ G : LGraph, ∀ p' : ProvView, exWriteQuery { env with prov := p' } false tgt cols q =
+      (match exQuery { env with prov := p' } (ctxOf G) q with | .ok h => .ok (G.compose h) | .error e => .error e) := by
+    first
+      | exact ⟨(match cols with
+            | some cs => addWriteColumns (addWriteO Graph.empty (mkTable env tgt none)) (cs.map listColumn)
+            | none => addWriteO Graph.empty (mkTable env tgt none)), fun _ => rfl⟩
+      | exact ⟨writeTargetHolder env false tgt cols, fun _ => rfl⟩
+  obtain ⟨G, hG⟩ := hG
+  rw [hG p, hG ProvView.none]
+  rcases exQuery_flat_agree env p ProvView.none (ctxOf G) q hq with ⟨e, h1, h2⟩ | ⟨c, h1, h2⟩
+  · rw [h1, h2]; simp [TablesAgree]
+  · rw [h1, h2]
+    exact agree_of_frames (Frame.compose G (expandWildcard_frame p c)) (Frame.compose G (expandWildcard_frame _ c))
+
+/-- `tables_independent_of_provider`, statement level, PARTIAL.
+
+    Full statement (checked on every generated case by `harness/c13.py`, oracle O1; not a theorem):
+      ∀ env p silent s, TablesAgree (analyze {env with prov := p} silent s) (analyze {env with prov := ProvView.none} silent s)
+
+    Proved here for `frag13`.  Missing for the rest:
+      * INSERT … SELECT — the provider's columns of the target enter `end_of_query_cleanup` as write columns, so the two runs
+        wire DIFFERENT target columns; lifting needs a relational invariant through `cleanupItem` / `addColumnLineage` (same
+        dataset nodes, tags, alias edges and key objects on both sides, and every write column owned by the target);
+      * nested queries (derived tables, CTEs, subqueries in expressions, set operations) — the same invariant through the
+        30‑function mutual recursion of `Model/Walk.lean`, for which Lean generates no equation lemmas. -/
+theorem tables_independent_of_provider_partial (env : Env) (p : ProvView) (silent : Bool) (s : Ast.Stmt)
+    (hs : frag13 s = true) :
+    TablesAgree (analyze { env with prov := p } silent s) (analyze { env with prov := ProvView.none } silent s) := by
+  unfold analyze
+  cases hd : dispatch (stmtType s) with
+  | none => exact TablesAgree.refl _
+  | some c =>
+    cases s with
+    | insert _ _ _ _ _ _ => simp [frag13] at hs
+    | query q b =>
+      have hq : Flat.flatSelect q = true := by simpa [frag13] using hs
+      simp only
+      rcases exQuery_flat_agree env p ProvView.none {} q hq with ⟨e, h1, h2⟩ | ⟨c', h1, h2⟩
+      · rw [h1, h2]; simp [TablesAgree]
+      · rw [h1, h2]; exact agree_of_frames (expandWildcard_frame p c') (expandWildcard_frame _ c')
+    | ctas tgt orr ine q b =>
+      have hq : Flat.flatSelect q = true := by simpa [frag13] using hs
+      simp only
+      exact writeQuery_agree env p tgt none q hq
+    | createView tgt orr cols q =>
+      have hq : Flat.flatSelect q = true := by simpa [frag13] using hs
+      simp only
+      exact writeQuery_agree env p tgt cols q hq
+    | insertValues tgt cols rows =>
+      -- (second alternative: `Model/Stmt.lean` after `patches/Stmt-D8.patch`, where this branch is `writeTargetHolder`)
+      first
+        | exact insertValues_agree env p tgt cols
+        | (cases cols with
+           | none =>
+             exact agree_of_frames
+               (target_frame (α := List String) (addWriteO Graph.empty (mkTable env tgt none)) (base_edges' _) (true && p.truthy)
+                 (provColumns p (mkTable env tgt none).d (mkTable env tgt none).printed) (fun cs => cs.map listColumn) none)
+               (target_frame (α := List String) (addWriteO Graph.empty (mkTable env tgt none)) (base_edges' _)
+                 (true && ProvView.none.truthy)
+                 (provColumns ProvView.none (mkTable env tgt none).d (mkTable env tgt none).printed)
+                 (fun cs => cs.map listColumn) none)
+           | some cs =>
+             exact agree_of_frames
+               (target_frame (addWriteO Graph.empty (mkTable env tgt none)) (base_edges' _) (true && p.truthy)
+                 (provColumns p (mkTable env tgt none).d (mkTable env tgt none).printed) (fun cs => cs.map listColumn) (some cs))
+               (target_frame (addWriteO Graph.empty (mkTable env tgt none)) (base_edges' _) (true && ProvView.none.truthy)
+                 (provColumns ProvView.none (mkTable env tgt none).d (mkTable env tgt none).printed)
+                 (fun cs => cs.map listColumn) (some cs)))
+    | createTable tgt ine cols => exact TablesAgree.refl _
+    | createTableLike tgt src => exact TablesAgree.refl _
+    | update _ _ _ _ _ => exact TablesAgree.refl _
+    | merge _ _ _ _ _ _ => exact TablesAgree.refl _
+    | copy _ _ => exact TablesAgree.refl _
+    | drop v ie tgt => exact TablesAgree.refl _
+    | alterRename x y => exact TablesAgree.refl _
+    | renameTable ps => exact TablesAgree.refl _
+    | noop _ _ => exact TablesAgree.refl _
+    | unsupported _ => exact TablesAgree.refl _
+
 /-! ### `unknown_tables_unchanged` -/
 
 /-- a provider that answers "no columns" for every table asked about behaves like no provider at all:
@@ -680,6 +937,56 @@ theorem dev_D8 :
     colEdges (analyzeFixed { prov := d8Prov } false d8Stmt) = [("s.u.x", "s.t.a"), ("s.u.y", "s.t.b")] ∧
     colEdges (exWriteQueryUnrepaired {} true ["s", "t"] (some ["a", "b"]) d8Query) =
       [("s.u.x", "s.t.a"), ("s.u.y", "s.t.b")] := by
+  decide +kernel
+
+/-! ### non‑vacuity -/
+
+/-- the provider knows `s.u (a, B, c)` (one name spelled in upper case), `s.v (a, d)` and `s.t (p, q)` -/
+def exProv : ProvView :=
+  ⟨true, fun k => if k == "s.u" then ["a", "B", "c"] else if k == "s.v" then ["a", "d"] else if k == "s.t" then ["p", "q"] else []⟩
+
+/-- `insert into s.t2 select * from s.u` -/
+def exStar : Ast.Stmt :=
+  .insert .insertInto false ["s", "t2"] none
+    (.select false [.mk (.star []) none false] [.mk (.table ["s", "u"] none false) []] none [] none) false
+
+/-- `star_exact` through the whole walk: the wildcard over the known table becomes exactly its columns, normalised, in the
+    provider's order; without metadata the wildcard pair stays -/
+example : colEdges (analyze { prov := exProv } false exStar) = [("s.u.a", "s.t2.a"), ("s.u.b", "s.t2.b"), ("s.u.c", "s.t2.c")] ∧
+    colEdges (analyze {} false exStar) = [("s.u.*", "s.t2.*")] := by decide +kernel
+
+/-- `create table s.t2 as select *, max(x.k) as m from s.u x join s.v on x.a = v.a` is inside `frag13`, reads two tables
+    and writes one, and the provider does change its columns -/
+def exCtas : Ast.Stmt :=
+  .ctas ["s", "t2"] false false
+    (.select false [.mk (.star []) none false, .mk (.func "max" false [.col ["x"] "k"] none) (some "m") true]
+      [.mk (.table ["s", "u"] (some "x") false)
+        [.mk "join" (.table ["s", "v"] none false) (some (.bin "=" (.col ["x"] "a") (.col ["v"] "a"))) []]] none [] none) false
+
+example : frag13 exCtas = true ∧
+    (analyze { prov := exProv } false exCtas).toOption.map (fun g => (Assemble.stmtRead g, Assemble.stmtWrite g)) =
+      some ([.ds (.table "s" "u"), .ds (.table "s" "v")], [.ds (.table "s" "t2")]) ∧
+    colEdges (analyze { prov := exProv } false exCtas) ≠ colEdges (analyze {} false exCtas) := by decide +kernel
+
+/-- `insert into s.t2 select b, a, zz from s.u x join s.v y using (k)`: `b` is listed by s.u only, `a` by both, `zz` by
+    none — the repair attributes them accordingly and leaves `zz` unresolved (`unqualified_by_metadata`,
+    `never_to_known_lacking` on a graph the walk produced) -/
+def exUnq : Ast.Stmt :=
+  .insert .insertInto false ["s", "t2"] none
+    (.select false [.mk (.col [] "b") none false, .mk (.col [] "a") none false, .mk (.col [] "zz") none false]
+      [.mk (.table ["s", "u"] (some "x") false) [.mk "join" (.table ["s", "v"] (some "y") false) none ["k"]]] none [] none) false
+
+example :
+    (match analyze { prov := exProv } false exUnq with
+      | .ok h => (match Assemble.build ⟨true, exProv.cols⟩ [h] with | .ok g => colEdges (.ok g) | .error _ => [])
+      | .error _ => []) =
+    [("zz", "s.t2.zz"), ("s.u.b", "s.t2.b"), ("s.u.a", "s.t2.a"), ("s.v.a", "s.t2.a")] := by decide +kernel
+
+/-- the hypotheses of `insert_positions_from_target_meta` / `explicit_list_wins` hold for a real provider, and the
+    conclusions are not trivial: the known columns name the positions; a one‑column list replaces them -/
+example : ((provColumns exProv (mkTable {} ["s", "t"] none).d (mkTable {} ["s", "t"] none).printed).map (·.key)).Nodup ∧
+    (writeColObjs (targetHolder { prov := exProv } true ["s", "t"] none)).map (·.printed) = ["s.t.p", "s.t.q"] ∧
+    (writeColObjs (targetHolder { prov := exProv } true ["s", "t"] (some [listColumn "q"]))).map (·.printed) = ["s.t.q"] := by
   decide +kernel
 
 end SqlLineage.Props.C13
